@@ -41,11 +41,32 @@ type xnode struct {
 	Cx bool     `json:"cx"`
 	Hp bool     `json:"hp"`
 	H  string   `json:"h"`
+	V  lib.Item `json:"v"`
 	Ch []*xnode `json:"ch"`
 }
 
+// valueOnly keeps the abstract value of a primitive comparable by the judge as
+// one TLA+ value: strings (code points), booleans and integers as they are,
+// every other kind reduced to its tag (they are compared through the content
+// hash instead).
+func valueOnly(v lib.Item) lib.Item {
+	switch v["t"] {
+	case "s":
+		return lib.Item{"t": "s", "cp": v["cp"]}
+	case "b":
+		return lib.Item{"t": "b", "b": v["b"]}
+	case "i":
+		return lib.Item{"t": "i", "i": v["i"]}
+	}
+	t, _ := v["t"].(string)
+	if t == "" {
+		t = "none"
+	}
+	return lib.Item{"t": "other:" + t}
+}
+
 func exportTree(n *lib.Node) *xnode {
-	x := &xnode{N: n.N, JN: n.JN, Ty: n.Ty, K: n.K, Pn: n.Pn, Li: n.Li, Cx: n.Ch, Hp: n.Ptr != nil, H: n.H, Ch: []*xnode{}}
+	x := &xnode{N: n.N, JN: n.JN, Ty: n.Ty, K: n.K, Pn: n.Pn, Li: n.Li, Cx: n.Ch, Hp: n.Ptr != nil, H: n.H, V: valueOnly(n.V), Ch: []*xnode{}}
 	for _, c := range n.Kids {
 		x.Ch = append(x.Ch, exportTree(c))
 	}
@@ -232,9 +253,12 @@ func trimOutcome(o lib.Outcome) map[string]any {
 		if i >= 3 {
 			break
 		}
-		t := map[string]any{"t": it["t"], "r": 0, "addr": []int{}, "wrapped": false, "h": ""}
+		t := map[string]any{"t": it["t"], "r": 0, "addr": []int{}, "wrapped": false, "h": "", "v": lib.Item{"t": "none"}}
 		if it["t"] == "el" {
 			t["r"], t["addr"], t["wrapped"], t["h"] = it["r"], it["addr"], it["wrapped"], it["h"]
+			if v, ok := it["v"].(lib.Item); ok {
+				t["v"] = valueOnly(v)
+			}
 		}
 		trimmed = append(trimmed, t)
 	}
